@@ -4,9 +4,11 @@ cd "$(dirname "$0")/.." || exit 2
 (cd lean && lake build AJ ajdriver >/dev/null 2>&1)
 [ -n "$VP_RUN_REPO" ] && export AJ_REPO=$VP_RUN_REPO
 export AJ_EVIDENCE_DIR=$(mktemp -d) AJ_REPLAY_DIR=$(mktemp -d)
+bad=0
 for i in $(seq -w 1 20); do
   s=$SECONDS
   out=$(./check C$i --tier thorough 2>&1); rc=$?
   echo "C$i rc=$rc $((SECONDS-s))s $(echo "$out" | tail -1 | cut -c1-150)"
-  [ $rc -ne 0 ] && echo "$out" | grep -E "VIOL|clause|mismatch|Error" | head -5
+  if [ $rc -ne 0 ]; then bad=1; echo "$out" | grep -E "VIOL|clause|mismatch|Error" | head -5; fi
 done
+exit $bad
